@@ -184,15 +184,18 @@ impl EmmyLuaAnalysis {
             verif_hooks::permute_by_key("update_files_by_uri.removed", &mut v, |f| *f);
             v
         };
-        self.compilation
-            .remove_index(removed_files.into_iter().collect());
+        // analyse in file-id (registration) order, not in the hash set's iteration order
+        let mut removed_files: Vec<FileId> = removed_files.into_iter().collect();
+        removed_files.sort();
+        self.compilation.remove_index(removed_files);
         #[cfg(feature = "verif-hooks")]
         let updated_files = {
             let mut v: Vec<FileId> = updated_files.into_iter().collect();
             verif_hooks::permute_by_key("update_files_by_uri.updated", &mut v, |f| *f);
             v
         };
-        let updated_files: Vec<FileId> = updated_files.into_iter().collect();
+        let mut updated_files: Vec<FileId> = updated_files.into_iter().collect();
+        updated_files.sort();
         self.compilation.update_index(updated_files.clone());
         updated_files
     }
